@@ -49,6 +49,8 @@ void h_parse_probe(void) {
     parseProbe(f, &st, g_ctx);
     V_POST("C07.probe-recorded-once: recorded iff addressed to this station and not seen before; fields as received; nothing sent",
            C07_PROBE(&st, f, head0, count0, live0, in.allocs0, in.tx0));
+    V_POST("C10.observer-records: a Probe/Train whose real destination is this station (what a peer running this responder emits, C10.probe.real-dst) is recorded with the emitter as its source",
+           C07_PROBE(&st, f, head0, count0, live0, in.allocs0, in.tx0));
     V_POST("C07.probe-foreign-ignored: frames addressed to other stations are never recorded",
            C07_PROBE_FOREIGN(&st, f, head0, in.allocs0));
     V_POST("C07.probe-wf: no observation twice, count = length", ST_WF(&st));
